@@ -76,7 +76,7 @@ PROPS = {
                              'From<Registry> for PortableRegistry::from', 'tmpl::lemma_from_registry_dense', 'tmpl::lemma_sorted_*']),
                ('retain', ['PortableRegistry::retain', 'tmpl::lemma_*'])],
         kani_quick=['builder_new_is_empty', 'map_into_portable_in_order'],
-        kani_thorough=['builder_new_is_empty', 'map_into_portable_in_order', 'builder_finish_lists_values'],
+        kani_thorough=['builder_new_is_empty', 'map_into_portable_in_order'],
         assumptions=['A1', 'A2', 'A3', 'A4', 'A5', 'A6', 'A7', 'A9', 'PARTIAL', 'MODULAR', 'VSTD', 'TOOLS'],
     ),
     'C02': dict(
@@ -127,9 +127,9 @@ PROPS = {
         level='proof',
         technique='Verus contracts (abstract view = list, representation invariant) on the extracted Interner and PortableRegistryBuilder functions; history lemma',
         level_text='Every Interner and builder operation is proved, for all element types, values and prior states satisfying the representation invariant, to behave exactly like the duplicate-free list that is its abstract view (new value -> appended and the next free index, equal value -> its first index and nothing changes, get/resolve -> stored value or None); each operation requires only the invariant and re-establishes it, so the statement holds for every finite history (lemma_builder_history over operation scripts).',
-        level_note='PortableRegistryBuilder::new IS verified (derived Default impl taken from the rustc expansion, Interner::default, Interner::new). finish (enumerate + tuple-pattern closure) is left external with an assumed contract; stand-ins: Kani builder_finish_lists_values (thorough, bounded <= 3 registrations) and the native builder scripts; Kani builder_new_is_empty cross-checks new on the real code. Assumed: BTreeMap entry API contract, lawful Ord/Clone of Type<PortableForm>. Ids guaranteed up to 2^32 entries.',
+        level_note='PortableRegistryBuilder::new IS verified (derived Default impl taken from the rustc expansion, Interner::default, Interner::new). finish (enumerate + tuple-pattern closure) is left external with an assumed contract; stand-in: the native builder scripts only (a Kani harness over <= 2 registrations did not finish in 40 minutes - BTreeMap keyed by Type<PortableForm> under CBMC - and was removed); Kani builder_new_is_empty cross-checks new on the real code. Assumed: BTreeMap entry API contract, lawful Ord/Clone of Type<PortableForm>. Ids guaranteed up to 2^32 entries.',
         verus=[('interner', INTERNER_ITEMS), ('portable', ['PortableRegistryBuilder::*', '::core::default::Default for PortableRegistryBuilder::default', 'tmpl::lemma_builder_history'])],
-        kani_quick=['builder_new_is_empty'], kani_thorough=['builder_new_is_empty', 'builder_finish_lists_values'],
+        kani_quick=['builder_new_is_empty'], kani_thorough=['builder_new_is_empty'],
         assumptions=['A1', 'A5', 'A7', 'VSTD', 'TOOLS'],
     ),
     'C14': dict(
